@@ -21,12 +21,23 @@ structure Msg where
   kind : MKind
   deriving DecidableEq, Repr
 
+/-- how the REQUEST context ended while the workload was running: the deferred removal and commit
+run under a context that is detached from BOTH (`utils.NewInheritCtx`: no cancellation, no deadline) -/
+inductive CtxEnd where
+  | live        -- still valid when the worker finishes
+  | cancelled   -- the caller went away (cancel)
+  | expired     -- the request's deadline passed (gRPC deadline, AsyncTimeout)
+  deriving DecidableEq, Repr
+
 /-- engine / log outcomes for one workload -/
 structure Script where
   walLog : Bool := true        -- wal.Log(create-lambda) succeeds
   logs : Option Nat := some 0  -- some k: VirtualizationLogs succeeds and yields k lines; none: it fails
   attach : Bool := true        -- VirtualizationAttach succeeds (only consulted with stdin)
   wait : Option Int := some 0  -- some c: VirtualizationWait returns exit code c; none: it fails
+  ctxEnd : CtxEnd := .live     -- request context cancelled / expired while the workload ran (no effect on cleanup)
+  ctxDeadAtStart : Bool := false  -- it was already dead when the worker started: GetWorkload(ctx) fails
+  stdinOpen : Bool := false    -- the client keeps stdin open until the stream closes (the output end does not wait for it)
   deriving DecidableEq, Repr
 
 /-- a message of the create channel: a created workload, or a failure (error or empty id) -/
@@ -54,7 +65,7 @@ def removeSync (id : Nat) (s : St R) : St R :=
 
 /-- the part of `lambda` between the deferred calls: forwarded output and the final message -/
 def lambdaBody (stdin : Bool) (id : Nat) (sc : Script) (isRecorded : Bool) : List Msg × Msg :=
-  if !isRecorded then ([], ⟨id, .error⟩)            -- GetWorkload failed
+  if !isRecorded || sc.ctxDeadAtStart then ([], ⟨id, .error⟩)   -- GetWorkload failed
   else match sc.logs with
     | none => ([], ⟨id, .error⟩)                     -- fetch log failed
     | some k =>
